@@ -451,6 +451,51 @@ def check_flat(ck, r):
     ck.expect(f"flatten({lits(r['s'])})", {"t": "seq", "v": r["flatten"]}, "textbook")
 
 
+# directed cases beside the exported ones ------------------------------------------------------------------------
+# flatten splices the members that are LISTS, one level deep, and keeps every other member as it is (Lib!Flatten over
+# elements of any kind): members that are sets, maps, strings, NULL, empty lists, lists of lists
+FLATTEN_CASES = [
+    ("[1, <<3, 4>>]", "[1, <<3, 4>>]"), ("[1, NULL, [2]]", "[1, NULL, 2]"), ("[NULL]", "[NULL]"), ("[[NULL], NULL]", "[NULL, NULL]"),
+    ("[<<1>>, [<<2>>], []]", "[<<1>>, <<2>>]"), ("[<<<1 => 2>>>, [3]]", "[<<<1 => 2>>>, 3]"), ("['ab', ['cd']]", "['ab', 'cd']"),
+    ("[[1, [2, [3]]], 4]", "[1, [2, [3]], 4]"), ("[<<>>, [], <<<>>>]", "[<<>>, <<<>>>]"), ("[TRUE, [FALSE], 1.5, [2.5]]", "[TRUE, FALSE, 1.5, 2.5]"),
+    ("[[<<1, 2>>], <<[1]>>]", "[<<1, 2>>, <<[1]>>]"), ("[date('20240101'), [//a//]]", "[date('20240101'), //a//]"),
+]
+
+
+def sum_cases():
+    """lists of ints beyond 2^53 and decimals whose exact sum IS a double: the textbook sum, to the last bit
+    (an int total that is rounded before the decimals are added shows here)"""
+    out = []
+    for c in (1 << 53, 1 << 60, 1 << 63, 1 << 64, 10 ** 20, 1 << 80):
+        for ints, decs in (([c + 1], [-1.0]), ([c + 3], [-3.0]), ([c + 1], [0.5, -1.5]), ([-(c + 1)], [1.0]),
+                           ([c + 1, c + 1], [-2.0]), ([c + 1, 1], [-2.0]), ([c + 5, -2], [-1.0, -2.0]), ([c + 1], [1.0] if c == 1 << 53 else [-1.0])):
+            total = Fraction(sum(ints)) + sum(Fraction(d) for d in decs)
+            if Fraction(float(total)) != total:
+                continue
+            members = [str(i) for i in ints] + [repr(d) for d in decs]
+            for order in (members, members[::-1]):
+                out.append(("[" + ", ".join(order) + "]", total, len(order)))
+    return out
+
+
+def check_directed(ck):
+    n = 0
+    for arg, want in FLATTEN_CASES:
+        for impl in ck.impls:
+            ck.nchecks += 1
+            n += 1
+            a, b = impl.call(f"flatten({arg})"), impl.call(want)
+            if a[0] != "val" or b[0] != "val" or not absval.strict_eq(a[1], b[1]):
+                tag = env_tag(impl.legacy)
+                ck.run.violation(tag + f"flatten({arg})", f"textbook: {tag}flatten({arg}) gives {show(a)}, the members that are lists "
+                                 f"spliced in and everything else kept is {want}", {"kind": "directed", "legacy": impl.legacy})
+    for arg, total, k in sum_cases():
+        ck.expect(f"sum({arg})", numwant(total, True, Fraction(0)), "textbook")
+        ck.expect(f"mean({arg})", numwant(total / k, Fraction(float(total / k)) == total / k, abs(total) / k * E9), "textbook")
+        n += 2
+    return n
+
+
 def check_range(ck, r):
     a, b, st = r["a"], r["b"], r["step"]
     ck.expect(f"range({a}, {b}, {st})", {"t": "ints", "v": r["range"]}, "textbook")
@@ -1246,6 +1291,7 @@ def run(run):
     ncases += len(bseen)
     run.sample({"BITS": recs[len(recs) // 2]}, limit=12)
 
+    ncases += check_directed(ck)
     tres = validate(run, events, srcs, outs, plist, started)
     run.sample({"TRACE": events[:3]}, limit=12)
     probe_drift(run, ck.impl)
@@ -1299,6 +1345,9 @@ def run(run):
 def replay(run, case):
     kind = case["kind"]
     envs = (bool(case.get("legacy", False)),)
+    if kind == "directed":
+        check_directed(Checker(run, envs))
+        return
     if kind in ("expect", "expect-again"):
         Checker(run, envs).expect(case["src"], case["want"], case["cat"])
     elif kind == "word":
